@@ -282,6 +282,7 @@ from indi.device import Driver, properties
 
 
 class SynA(Driver):
+    g0 = properties.Group("G0", vectors=dict(v=properties.TextVector("V0", elements=dict(a=properties.Text("A")))))
     ga = properties.Group("GA", vectors=dict(v=properties.TextVector("VA", elements=dict(a=properties.Text("A")))))
     plain_a = 1
 
@@ -312,7 +313,7 @@ def rule_mro(ctx):
     f = drv.find_method("message_from_client")
     init = drv.methods["__init__"]
     gp = p.cls("indi.message.get_properties.GetProperties")
-    expected = {"SynA": ["VA"], "SynB": ["VA2", "VB"], "SynC": ["VA2", "VB", "VC"], "SynD": ["VA2", "VB", "VC"]}
+    expected = {"SynA": ["V0", "VA"], "SynB": ["V0", "VA2", "VB"], "SynC": ["V0", "VA2", "VB", "VC"], "SynD": ["V0", "VA2", "VB", "VC"]}
     bad = False
     collected = {}
     for depth, cname in enumerate(expected, 1):
@@ -339,7 +340,7 @@ def rule_mro(ctx):
         collected[cname] = sorted(got)
         if sorted(got) != expected[cname]:
             missing = sorted(set(expected[cname]) - set(got))
-            ctx.violated("C01.MRO", init.short, f"a driver class {cname} (depth {depth}) announces properties {sorted(got)}, expected {expected[cname]} (SynB overrides the group 'ga' of SynA: the nearest definition wins): the groups of some ancestor ({missing}) are lost or shadowed by a farther ancestor's, so their properties are never defined to any client", fi=init, text=f"mro:{cname}", witness="class SynA(Driver): ga=...; class SynB(SynA): ga=... (override), gb=...; class SynC(SynB): gc=...; class SynD(SynC): pass")
+            ctx.violated("C01.MRO", init.short, f"a driver class {cname} (depth {depth}) announces properties {sorted(got)}, expected {expected[cname]} (SynB overrides the group 'ga' of SynA: the nearest definition wins): the groups of some ancestor ({missing}) are lost or shadowed by a farther ancestor's, so their properties are never defined to any client", fi=init, text=f"mro:{cname}", witness="class SynA(Driver): g0=..., ga=...; class SynB(SynA): ga=... (override), gb=...; class SynC(SynB): gc=...; class SynD(SynC): pass")
             bad = True
     if not bad:
         ctx.holds("C01.MRO", init.short, "properties of all ancestors announced on a 4-level synthetic hierarchy (metaclass, collector and constructors interpreted)", fi=init)
